@@ -1,7 +1,7 @@
 """C03 Errors are reported if and only if the call failed; results are finite."""
 from vlib.core import Group
 from vlib import audit
-from . import common, C01, C05, C09, C10
+from . import common, C01, C05, C06, C09, C10
 
 LEVEL = "proof"
 EXPLANATION = ("Protocol obligations of every function under contract: K1 contracts (scalar accessors, closed-form functions) "
@@ -51,6 +51,11 @@ def groups(sc, tier):
     gs += [g for g in C01.groups(sc, tier) if g.kind == "K1"]
     gs += C05.value_groups(sc, tier, "C03.via_C05")
     gs += [g for g in C09.fluor_groups(sc, tier, "C03.via_C09") if "CS_FluorShell" in g.name]
+    # the three refractive-index entry points (bounded harness of C06): a failing call returns the 0 sentinel with one error
+    refr = [g for g in C06.groups(sc, tier) if "Refractive" in g.name]
+    for g in refr:
+        g.name = "C03.via_" + g.name
+    gs += refr
     for g in gs:
         if g.name.startswith("C01."):
             g.name = "C03.via_" + g.name
